@@ -1,80 +1,83 @@
-import Ledger.Proofs.LogPayload
+import Ledger.Proofs.CtrlImport
+import Ledger.Proofs.CtrlExamples
 
 /-!
-C08 — The log is a complete, ordered journal: PAYLOAD PART ONLY (names prefixed
-`payload_`).  "…the log payloads alone determine the ledger state: replaying them
-reproduces …" needs, first of all, that a stored / exported payload decodes back to
-the payload that was written.  This file proves that round trip for every payload
-type at the level of JSON trees (Ledger/Log/PayloadJson.lean: `encodePayload` =
-`json.Marshal(payload)`, `decodePayload` = `HydrateLog`), for every CANONICAL payload
-(`canonicalPayload`: exactly the values the decoder itself can produce — well-formed
-UTF-8, `ParseTime`-normalised dates, `uint64` ids, no empty non-nil volume map,
-target id of the type announced by `targetType`, map entries presented in key order).
-Outside that set the round trip is lossy by construction of `encoding/json` /
-go-libs `time` (modelled: `sanitize`, `normTime`); those cases are compared with the
-real code by the `payload` workload, not proved.
+# C08 — The log is a complete, ordered journal (controller layer, sequential)
 
-The replay part of C08 (one log per write, ordering, `replay_reproduces`) belongs to
-another area and, if added, lives in a different file.
-Only theorems and non-vacuity examples here.
+`step` = one write through `forgeLog`; `runHist` = a sequential history.
+`replay` = `Export` (logs in id order) followed by `Import` / `importLog` into an
+empty ledger.  The full replay statement is FALSE on the unchanged code (two
+counterexamples below); what holds is stated as `…_partial`.
 -/
 namespace Ledger.C08
-open Ledger.Log
+open Ledger.Ctrl Ledger.Core Ledger.Ctrl.Examples
 
-/-- `HydrateLog(type, json.Marshal(payload)) = payload` for every canonical payload of
-    every type (new transaction, reverted transaction, saved / deleted metadata,
-    inserted schema). -/
-theorem payload_decode_encode (p : Payload) (h : canonicalPayload p = true) :
-    decodePayload p.type (encodePayload p) = .ok p :=
-  decodePayload_encodePayload p h
+/-- A successful, non-dry-run, non-idempotent write appends exactly one log: the
+    one it answers, carrying the request's key, hash, schema version and clock. -/
+theorem one_log_per_successful_write (strict : Bool) (s : State) (op : Op)
+    (he : (step strict s op).2.isError = false) (hh : (step strict s op).2.hit = false) (hd : op.dry = false) :
+    ∃ log, (step strict s op).2.log = some log ∧ (step strict s op).1.db.logs = s.db.logs ++ [log] ∧
+      log.ik = op.ik ∧ log.ihash = op.ihash ∧ log.schemaVersion = op.sv ∧ log.date = op.now :=
+  step_committed_appended strict s op he hh hd
 
-/-- The memento (what the hash chain covers) of the decoded payload is the memento of
-    the original: re-inserting an exported log stores the same `memento` bytes, which is
-    what the import path's hash comparison relies on. -/
-theorem payload_memento_stable (p : Payload) (h : canonicalPayload p = true) :
-    (decodePayload p.type (encodePayload p)).toOption.map mementoBytes = some (mementoBytes p) :=
-  memento_decode_encode p h
+/-- A failed, dry-run or idempotent write appends none (and rewrites none). -/
+theorem no_log_otherwise (strict : Bool) (s : State) (op : Op)
+    (h : (step strict s op).2.isError = true ∨ (step strict s op).2.hit = true ∨ op.dry = true) :
+    (step strict s op).1.db.logs = s.db.logs :=
+  step_not_committed_logs strict s op h
 
-/-- Component form used by replay: a canonical transaction decodes to itself
-    (postings, metadata, timestamp, reference, id, inserted/updated/reverted dates,
-    post-commit volumes, template). -/
-theorem payload_transaction_decode_encode (tx : Transaction) (h : canonTransaction tx = true) :
-    decTransaction (encTransactionJ tx) = .ok tx :=
-  decTransaction_enc tx h
+/-- The journal is append-only: every operation leaves the existing logs in place. -/
+theorem journal_append_only (strict : Bool) (s : State) (op : Op) :
+    ∃ suffix, (step strict s op).1.db.logs = s.db.logs ++ suffix ∧ suffix.length ≤ 1 := by
+  by_cases he : (step strict s op).2.isError = true
+  · exact ⟨[], by rw [no_log_otherwise strict s op (Or.inl he)]; simp, Nat.zero_le _⟩
+  · by_cases hh : (step strict s op).2.hit = true
+    · exact ⟨[], by rw [no_log_otherwise strict s op (Or.inr (Or.inl hh))]; simp, Nat.zero_le _⟩
+    · by_cases hd : op.dry = true
+      · exact ⟨[], by rw [no_log_otherwise strict s op (Or.inr (Or.inr hd))]; simp, Nat.zero_le _⟩
+      · obtain ⟨log, _, hl, _⟩ := one_log_per_successful_write strict s op
+          (by simpa using he) (by simpa using hh) (by simpa using hd)
+        exact ⟨[log], hl, Nat.le_refl _⟩
 
-/-- Strings are the only lossy text leaf: well-formed UTF-8 survives, anything else is
-    changed by the encoder (U+FFFD), so the round trip cannot hold there. -/
-theorem payload_string_roundtrip (s : Bytes) (h : validUtf8 s = true) : decStr (encStr s) = .ok s :=
-  decStr_enc s h
+/-- Log ids strictly increase in commit order (sequential histories), whatever
+    fails in between. -/
+theorem log_ids_increase (strict : Bool) (ops : List Op) :
+    (runHist strict {} ops).db.logs.Pairwise (fun a b => a.id < b.id) :=
+  (runHist_inv strict {} ops Inv.empty).logSorted
 
-/-- …and it is genuinely lossy outside: an ill-formed byte does not come back. -/
-theorem payload_string_roundtrip_counterexample : decStr (encStr [0x61, 0xff]) ≠ .ok [0x61, 0xff] := by
-  decide
+/-- `replay_reproduces` is FALSE: an account first created by a metadata save under a
+    schema gets the chart's default metadata live, not on replay. -/
+theorem replay_reproduces_counterexample :
+    (replay (runHist true {} histDefaults)).2 = none ∧
+    (replay (runHist true {} histDefaults)).1.db ≠ (runHist true {} histDefaults).db := by decide +kernel
 
-/-- An EMPTY (non-nil) post-commit-volumes map comes back as nil (`omitempty`). -/
-theorem payload_empty_volumes_counterexample :
-    decPcv (encPcvJ (some [])) = .ok none := by
-  decide
+/-- `replay_reproduces` is FALSE, second way: replaying a metadata save lowers the
+    first usage of an account whose (future-dated) first usage is later than the save. -/
+theorem replay_reproduces_counterexample_dates :
+    (replay (runHist true {} histDates)).2 = none ∧
+    (replay (runHist true {} histDates)).1.db ≠ (runHist true {} histDates).db := by decide +kernel
 
-/-- A transaction-typed target whose id is given for an ACCOUNT target type comes back
-    as a `float64` (reported as `floatTarget`): the dynamic type of `TargetID` is lost. -/
-theorem payload_target_type_counterexample :
-    decodePayload .setMetadata (encodePayload (.savedMetadata b!"ACCOUNT" (.transaction 7) none)) = .error .floatTarget := by
-  decide
+/-- What holds for the one divergent payload (account SET_METADATA): the replayed
+    row equals the live row when the account exists with a first usage not after
+    the save … -/
+theorem replay_reproduces_partial (w : Time) (accounts : Ledger.Base.Map String Account) (a : String)
+    (m defaults : Meta) (acc : Account) (hex : accounts.get? a = some acc) (hfu : acc.firstUsage ≤ w) :
+    upsertAccount w accounts { address := a, metadata := m, defaults := defaults } =
+    updateAccountMeta w accounts (a, m) :=
+  savedMeta_paths_agree_existing w accounts a m defaults acc hex hfu
 
-/-- non-vacuity: a canonical payload of each type, with non-ASCII text, quotes,
-    backslashes, a reverted date, volumes and account metadata. -/
-example :
-    canonicalPayload (.createdTransaction
-      { postings := some [{ source := b!"world", destination := b!"users:é\"\\", amount := some 100000000000000000000, asset := b!"USD/2" }],
-        metadata := some [(b!"a", b!"1"), (b!"b<", b!"日本")],
-        timestamp := wDateC, reference := b!"ref-1", id := some 18446744073709551615,
-        insertedAt := wDateC, updatedAt := wDateC, revertedAt := some wDateC,
-        postCommitVolumes := some [(b!"world", [(b!"USD/2", { input := 0, output := 100 })])],
-        postCommitEffectiveVolumes := none, template := [] }
-      (some [(b!"users:1", some [(b!"k", b!"v")]), (b!"users:2", none)])) = true ∧
-    canonicalPayload (.savedMetadata b!"account" (.account b!"users:1") (some [])) = true ∧
-    canonicalPayload (.deletedMetadata b!"TRANSACTION" (.transaction 3) b!"k") = true := by
+/-- … or when it is new and the chart gives it no default metadata. -/
+theorem replay_reproduces_partial_new (w : Time) (accounts : Ledger.Base.Map String Account) (a : String) (m : Meta)
+    (hnew : accounts.get? a = none) :
+    upsertAccount w accounts { address := a, metadata := m, defaults := [] } = updateAccountMeta w accounts (a, m) :=
+  savedMeta_paths_agree_new w accounts a m hnew
+
+/-! non-vacuity -/
+example : (step false s1 (pay false)).2.isError = false ∧ (step false s1 (pay false)).1.db.logs.length = 2 := by decide
+example : (step false s1 overdraw).2.isError = true := by decide
+-- a replay that does reproduce: no metadata-created account
+example : (replay (runHist false {} [{ kind := .createP {} [⟨"world", "bank", 100, "USD"⟩] false, now := 10 }, pay false])).1.db =
+    (runHist false {} [{ kind := .createP {} [⟨"world", "bank", 100, "USD"⟩] false, now := 10 }, pay false]).db := by
   decide +kernel
 
 end Ledger.C08
